@@ -103,6 +103,9 @@ def run(rep, tier, seed, replay):
             if k in ("any", "any-compiled") and len(e) <= 2000:
                 # the combinator nests the tree one level deeper: the model of its own tree
                 predicted = m.ask(["A %d %s" % ((2, hexs(e) + " " + hexs(e)) if k == "any" else (1, hexs(e)))])[0].startswith("panic")
+            if k == "any-empty" and len(e) <= 2000:
+                # any([any([]), any([e])]) nests the tree two levels deeper, like any([any([e]), any([e])])
+                predicted = m.ask(["AN 2 %s %s" % (hexs(e), hexs(e))])[0].startswith("panic")
             if predicted and tag in finding_ids:
                 rep.known_hits[tag] += 1
             else:
